@@ -158,6 +158,18 @@ def planted_values(w: World, g, a: int, d: int, outputs: bool):
     return lst
 
 
+def as_iterable(items, sel: int):
+    """The same items in one of the forms an ``Iterable`` parameter admits (a one-shot iterator among them)."""
+    sel %= 5
+    if sel == 1:
+        return tuple(items)
+    if sel == 2:
+        return iter(list(items))
+    if sel == 3:
+        return (x for x in list(items))
+    return items
+
+
 # ------------------------------------------------------------------ the ops
 def op_new_value(w, a, b, c, d):
     kw = {}
@@ -190,7 +202,7 @@ def op_new_node(w, a, b, c, d):
     if (b >> 16) % 11 == 5:
         base = w.graph(b >> 20)
         g = [ir.GraphView(list(base.inputs), list(base.outputs), nodes=list(base)) if base is not None else "g", "not a graph"][(b >> 23) % 2]
-    n = ir.Node("" if c % 7 else "custom", OPTYPES[c % len(OPTYPES)], ins, num_outputs=1 + (c >> 3) % 3, name=nm, graph=g)
+    n = ir.Node("" if c % 7 else "custom", OPTYPES[c % len(OPTYPES)], as_iterable(ins, c >> 9), num_outputs=1 + (c >> 3) % 3, name=nm, graph=g)
     w.last_new = (n, nm)
     w.reg(n)
     for o in n.outputs:
@@ -219,7 +231,7 @@ def op_new_node_with_outputs(w, a, b, c, d):
         g = [ir.GraphView(list(base.inputs), list(base.outputs), nodes=list(base)) if base is not None else "g", "not a graph"][(b >> 12) % 2]
     if (b >> 14) % 9 == 4 and ins:
         ins = ["oops"]
-    n = ir.Node("", OPTYPES[c % len(OPTYPES)], ins, outputs=outs, graph=g, name=name_from(w, c >> 4))
+    n = ir.Node("", OPTYPES[c % len(OPTYPES)], as_iterable(ins, c >> 8), outputs=tuple(outs) if (c >> 11) % 3 == 1 else outs, graph=g, name=name_from(w, c >> 4))
     w.reg(n)
     return w.ref(n)
 
@@ -231,7 +243,7 @@ def op_new_node_subgraph(w, a, b, c, d):
     attrs = [ir.AttrGraph("body", sub)] if b % 3 else [ir.AttrGraphs("branches", [sub, w.graph(b >> 2)])]
     ins = [w.value(c)] if c % 2 else []
     g = C(w, d >> 2) if d % 3 == 0 else None
-    n = ir.Node("", "If", ins, attrs, num_outputs=1, graph=g, name=name_from(w, c >> 3))
+    n = ir.Node("", "If", as_iterable(ins, c >> 9), as_iterable(attrs, c >> 12), num_outputs=1, graph=g, name=name_from(w, c >> 3))
     w.reg(n)
     return w.ref(n)
 
@@ -252,7 +264,8 @@ def op_new_graph(w, a, b, c, d):
     outs = [x for x in outs if x is not None]
     nodes = [x for x in nodes if x is not None]
     inits = [x for x in inits if x is not None]
-    g = ir.Graph(ins, outs, nodes=nodes, initializers=inits, name=w.fresh_name("g"), opset_imports={"": 20})
+    form = d >> 9
+    g = ir.Graph(tuple(ins) if form % 3 == 1 else ins, tuple(outs) if (form >> 2) % 3 == 1 else outs, nodes=as_iterable(nodes, form >> 4), initializers=tuple(inits) if form % 2 else inits, name=w.fresh_name("g"), opset_imports={"": 20})
     w.reg(g)
     return w.ref(g)
 
